@@ -34,6 +34,12 @@ func unescapeParameter(b bytes.Bytes) bytes.Bytes {
 	return out
 }
 
+// UnescapeParameter does the same for the parameters which are not stored in
+// a directive (the file name of the INCLUDE directive).
+func UnescapeParameter(b bytes.Bytes) bytes.Bytes {
+	return unescapeParameter(b)
+}
+
 func IsArrayOfTypes(b bytes.Bytes) bool {
 	l := len(b)
 	if l >= 4 && b[0] == '[' && b[l-1] == ']' {
